@@ -1,5 +1,4 @@
-import Rcgen.Model.CsrParse
-import Rcgen.Proofs.DerRoundTrip
+import Rcgen.Proofs.CsrIssue
 /-
   C06 — CSR acceptance is sound and issuance binds the requester's key.
   Model: `parseCsr` (Model/CsrParse.lean) = csr.rs `from_der` after the third-party parse; the
@@ -9,97 +8,17 @@ import Rcgen.Proofs.DerRoundTrip
 namespace Rcgen.Theorems.C06
 open Rcgen Rcgen.Model Rcgen.Spec
 
-/-- what acceptance of a request establishes, read off the parser's own steps -/
-structure Accepted (p521 crypto : Bool) (verify : Bytes → Bytes → Bytes → Bytes → Bool)
-    (der : Bytes) (r : CsrParsed) : Type where
-  info : Bytes
-  algDer : Bytes
-  sig : Bytes
-  i : CsrInfo
-  spkiAlg : Bytes
-  keyBits : Bytes
-  oid : List Nat
-  sigAlg : SigAlg
-  dn : DistinguishedName
-  exts : List (Ext × Bytes)
-  hsplit : splitSigned der = some (info, algDer, sig)
-  hinfo : decodeCsrInfo info = some i
-  hparts : spkiParts i.spki = some (spkiAlg, keyBits)
-  hverify : verify i.spki info algDer sig = true
-  hoid : algIdOid algDer = some oid
-  hsig : sigAlgFromOid p521 oid = some sigAlg
-  hkey : csrKeyAlg p521 sigAlg spkiAlg = some r.key.alg
-  hsame : r.key.alg.sameKeyType sigAlg = true
-  hname : importName i.subject = .ok dn
-  hreq : csrExtensionRequests i.attrs = .ok exts
-  happly : applyRequested
-    { defaultParams with dn := dn, keyIdMethod := if crypto then .sha256 else .preSpecified [] } [] exts
-      = .ok r.params
-  hraw : r.key.raw = keyBits
-  hspki : spkiDer r.key = i.spki
+/-- what acceptance of a request establishes, read off the parser's own steps
+    (`Proofs.CsrAccept.Accepted`: the split, the decoded info, the verifier's verdict, the
+    algorithms, the imported name, the paired-up extensions, the loop's result, the
+    SubjectPublicKeyInfo comparison) -/
+abbrev Accepted := Proofs.CsrAccept.Accepted
 
 /-- every accepted request went through every gate of `from_der` -/
 theorem accepted_steps (p521 crypto : Bool) (verify : Bytes → Bytes → Bytes → Bytes → Bool)
     (der : Bytes) (r : CsrParsed) (h : parseCsr p521 crypto verify der = .ok r) :
-    Nonempty (Accepted p521 crypto verify der r) := by
-  unfold parseCsr at h
-  cases hs : splitSigned der with
-  | none => simp [hs] at h
-  | some t =>
-    obtain ⟨info, alg, sig⟩ := t
-    simp only [hs] at h
-    cases hd : decodeCsrInfo info with
-    | none => simp [hd] at h
-    | some i =>
-      simp only [hd, Option.map_some, Option.getD_some] at h
-      cases hp : spkiParts i.spki with
-      | none => simp [hp] at h
-      | some parts =>
-        obtain ⟨spkiAlg, keyBits⟩ := parts
-        simp only [hp] at h
-        cases hv : verify i.spki info alg sig with
-        | false => simp [hv] at h
-        | true =>
-          simp only [hv, Bool.not_true, Bool.false_eq_true, if_false] at h
-          cases ho : algIdOid alg with
-          | none => simp [ho] at h
-          | some oid =>
-            simp only [ho] at h
-            cases hsg : sigAlgFromOid p521 oid with
-            | none => simp [hsg] at h
-            | some sigAlg =>
-              simp only [hsg] at h
-              cases hk : csrKeyAlg p521 sigAlg spkiAlg with
-              | none => simp [hk] at h
-              | some a =>
-                simp only [hk] at h
-                cases hst : a.sameKeyType sigAlg with
-                | false => simp [hst] at h
-                | true =>
-                  simp only [hst, Bool.not_true, Bool.false_eq_true, if_false] at h
-                  cases hn : importName i.subject with
-                  | error e => simp [hn] at h
-                  | ok dn =>
-                    simp only [hn] at h
-                    cases hr : csrExtensionRequests i.attrs with
-                    | error e => simp [hr] at h
-                    | ok exts =>
-                      simp only [hr] at h
-                      cases ha : applyRequested { defaultParams with dn := dn, keyIdMethod := if crypto then .sha256 else .preSpecified [] } [] exts with
-                      | error e => simp [ha] at h
-                      | ok params =>
-                        simp only [ha] at h
-                        split at h
-                        · cases h
-                        · rename_i hne
-                          injection h with h
-                          subst h
-                          simp only [bne_iff_ne, ne_eq, Decidable.not_not] at hne
-                          exact ⟨{ info := info, algDer := alg, sig := sig, i := i, spkiAlg := spkiAlg,
-                                   keyBits := keyBits, oid := oid, sigAlg := sigAlg, dn := dn,
-                                   exts := exts, hsplit := hs, hinfo := hd, hparts := hp,
-                                   hverify := hv, hoid := ho, hsig := hsg, hkey := hk, hsame := hst,
-                                   hname := hn, hreq := hr, happly := ha, hraw := rfl, hspki := hne }⟩
+    Nonempty (Accepted p521 crypto verify der r) :=
+  Proofs.CsrAccept.accepted_steps p521 crypto verify der r h
 
 /-- **acceptance implies verification**: a request is accepted only if `verify` succeeded on
     the embedded SubjectPublicKeyInfo, the exact certificationRequestInfo bytes of the input,
@@ -178,41 +97,8 @@ theorem p384_signed_with_sha256 :
 theorem unsupported_rejected (p p' : CertParams) (seen : List (List Nat)) (exts : List (Ext × Bytes))
     (h : applyRequested p seen exts = .ok p') :
     ∀ e ∈ exts, (∃ b, e.1.value = .keyUsage b) ∨ (∃ n, e.1.value = .san n) ∨
-      (∃ o, e.1.value = .eku o ∧ o.all (fun x => stdEkus.any (fun s => s.oid == x)) = true) := by
-  induction exts generalizing p seen with
-  | nil => intro e he; simp at he
-  | cons x rest ih =>
-    obtain ⟨x, raw⟩ := x
-    intro e he
-    simp only [applyRequested] at h
-    split at h
-    · cases h
-    · cases hv : x.value with
-      | keyUsage bits =>
-        simp only [hv] at h
-        split at h
-        · cases h
-        · rcases List.mem_cons.1 he with rfl | hr
-          · exact Or.inl ⟨_, hv⟩
-          · exact ih _ _ h e hr
-      | san names =>
-        simp only [hv] at h
-        cases hs : importSans names with
-        | error x => simp [hs] at h
-        | ok s =>
-          simp only [hs] at h
-          rcases List.mem_cons.1 he with rfl | hr
-          · exact Or.inr (Or.inl ⟨_, hv⟩)
-          · exact ih _ _ h e hr
-      | eku oids =>
-        simp only [hv] at h
-        split at h
-        · rename_i hall
-          rcases List.mem_cons.1 he with rfl | hr
-          · exact Or.inr (Or.inr ⟨_, hv, hall⟩)
-          · exact ih _ _ h e hr
-        · cases h
-      | _ => simp [hv] at h
+      (∃ o, e.1.value = .eku o ∧ o.all (fun x => stdEkus.any (fun s => s.oid == x)) = true) :=
+  Proofs.CsrAccept.unsupported_rejected p p' seen exts h
 
 /-- **no extension is asked for twice**: the identifiers of the extensions of an accepted
     request are pairwise different (and different from the ones already seen), so none replaces
@@ -268,17 +154,8 @@ theorem at_most_one_request (attrs : List CsrAttr) (exts : List (Ext × Bytes))
     (attrs.filter (fun a => a.oid == extensionRequestOid) = [] ∧ exts = []) ∨
     (∃ a dec raws, attrs.filter (fun a => a.oid == extensionRequestOid) = [a] ∧
       decodeExtensionRequest a.values = some dec ∧ rawExtValues a.values = some raws ∧
-      exts = dec.zip raws) := by
-  unfold csrExtensionRequests at h
-  split at h
-  · rename_i hf; injection h with h; exact Or.inl ⟨hf, h.symm⟩
-  · rename_i a hf
-    split at h
-    · rename_i dec raws hd hr
-      injection h with h
-      exact Or.inr ⟨a, dec, raws, hf, hd, hr, h.symm⟩
-    · split at h <;> cases h
-  · cases h
+      exts = dec.zip raws) :=
+  Proofs.CsrAccept.at_most_one_request attrs exts h
 
 /-- **key usages are carried over exactly**: the requested KeyUsage value is, byte for byte, the
     value rcgen writes for the usages it recorded — so no requested bit is dropped and the
@@ -315,6 +192,24 @@ theorem carries_san (p p' : CertParams) (seen : List (List Nat)) (names : List G
       subst h
       exact ⟨s, rfl, rfl, rfl⟩
 
+/-- **issuance carries the request, and nothing but the request.**  For every byte string the
+    parser accepts (rcgen's own requests and anybody else's), every third-party verifier, every
+    issuer and hash family: when a certificate is issued from the parsed request, the clause
+    list `Spec.c06IssueClauses` — which reads only the two artefacts with the RFC 2986 / RFC 5280
+    decoders — is empty: the issued subject is the requested subject; the subject alternative
+    names and the KeyUsage value are the ones in the request (all of them, from every extension
+    request the request holds); the extended key usages are the same set; and the request asks
+    for no other extension and no non-standard purpose.  Together with
+    `accepted_spki_identical` this is the second half of the property. -/
+theorem issued_carries_request (p521 crypto : Bool) (verify : Bytes → Bytes → Bytes → Bytes → Bool)
+    (der : Bytes) (r : CsrParsed) (h : parseCsr p521 crypto verify der = .ok r)
+    (H : Hashes) (issuer : Issuer)
+    (hinv : certInvalid r.params issuer = none)
+    (hnp : certPanics r.params issuer = false)
+    (hsize : (encode (tbsCertificate H r.params r.key issuer)).length < 256 ^ 126) :
+    Spec.c06IssueClauses der (encode (tbsCertificate H r.params r.key issuer)) = [] :=
+  Proofs.CsrIssue.issued_clauses_hold p521 crypto verify der r h H issuer hinv hnp hsize
+
 /-! non-vacuity -/
 example : applyRequested defaultParams [] [(⟨[2, 5, 29, 19], true, .basicConstraints true none⟩, [48, 3, 1, 1, 255])] =
     .error .unsupportedExtension := rfl
@@ -334,5 +229,24 @@ example : applyRequested defaultParams [] [(⟨[2, 5, 29, 15], true, .keyUsage [
 -- an Ed25519 signature identifier over a key declared as RSA is not a signature under that key
 example : SigAlg.sameKeyType .rsaSha256 .ed25519 = false := by decide
 example : SigAlg.sameKeyType .ecdsaP384 .ecdsaP256 = true := by decide
+
+/-! non-vacuity of `issued_carries_request`: a request with a name, two alternative names, key
+    usages and two purposes is accepted, and issuing from it meets the hypotheses -/
+def exReq : Spec.CsrInputs :=
+  { p := { (default : CertParams) with
+           sans := [.dns [0x61], .ip [10, 0, 0, 1]],
+           keyUsages := [.keyEncipherment, .digitalSignature],
+           ekus := [.clientAuth, .serverAuth],
+           dn := ((DistinguishedName.new.push .org (.printable [0x4f])).push .commonName (.utf8 [0x61])) },
+    subject := ⟨.ed25519, List.replicate 32 7⟩, attrs := [] }
+def exIssuer : Issuer :=
+  { dn := DistinguishedName.new.push .commonName (.utf8 [0x43, 0x41]), keyIdMethod := .sha256,
+    keyUsages := [.keyCertSign], key := ⟨.ecdsaP256, [4, 1, 2]⟩ }
+
+example : (match parseCsr false true (fun _ _ _ _ => true)
+      (encode (Proofs.Canon.Csr.signedCsr exReq (List.replicate 64 9))) with
+    | .ok r => certInvalid r.params exIssuer == none && !certPanics r.params exIssuer &&
+        r.params.sans == exReq.p.sans
+    | .error _ => false) = true := by decide +kernel
 
 end Rcgen.Theorems.C06
